@@ -734,6 +734,8 @@ def m_split_list(text, a, b):
     i = idx[a % len(idx)]
     head, tail = ls[i].split(':', 1)
     toks = tail.split()
+    if not toks:
+        return text
     k = 1 + b % len(toks)
     if k >= len(toks):
         k = len(toks) - 1
